@@ -46,10 +46,6 @@ def _vol(e6):
     return np.where((d > 0).all(-1), np.prod(np.maximum(d, 0).astype(np.float64), -1), 0.0)
 
 
-def _boxes(lo, size):
-    return lo, lo + size
-
-
 def _overlap(lo1, hi1, lo2, hi2):
     """interiors intersect (broadcasting over leading dims, last dim = 3 axes)."""
     return (np.maximum(lo1, lo2) < np.minimum(hi1, hi2)).all(-1)
@@ -224,6 +220,138 @@ class M(Model):
         if not ep.states:
             return None
         return self.utilisation(ep.states[-1]), 1e-5
+
+    # ------------------------------------------------------------------------ constructive solver
+    SOLVE_BUDGET = 3000
+
+    @staticmethod
+    def _first_empty_point(size, los, his):
+        """Smallest point in (z, y, x) lexicographic order that lies inside the container and in no
+        placed box.  Its coordinates are 0 or upper faces of placed boxes; in every complete tiling
+        the box covering it has its low corner exactly there."""
+        cand = []
+        for ax in range(3):
+            v = {0}
+            v.update(int(h[ax]) for h in his)
+            cand.append(np.array(sorted(x for x in v if x < size[ax]), np.int64))
+        if any(c.size == 0 for c in cand):
+            return None
+        xs, ys, zs = cand
+        Z, Y, X = np.meshgrid(zs, ys, xs, indexing="ij")
+        P = np.stack([X, Y, Z], -1).reshape(-1, 3)
+        if len(los):
+            lo, hi = np.asarray(los, np.int64), np.asarray(his, np.int64)
+            inside = ((P[:, None, :] >= lo[None]) & (P[:, None, :] < hi[None])).all(-1).any(-1)
+            free = np.flatnonzero(~inside)
+        else:
+            free = np.arange(len(P))
+        return None if free.size == 0 else P[int(free[0])]
+
+    def _tile_plan(self, s):
+        """[(item, corner)] completing the packing from the current state, or None."""
+        clo, chi, ems, ems_mask, items, imask, placed, loc = self._geom(s)
+        size = chi - clo
+        valid = np.flatnonzero(imask)
+        if clo.any() or int(np.prod(items[valid], -1).sum()) != int(np.prod(size)):
+            return None                                   # instance does not promise an exact tiling
+        los = [loc[j] for j in np.flatnonzero(placed)]
+        his = [loc[j] + items[j] for j in np.flatnonzero(placed)]
+        remaining = [int(j) for j in valid if not placed[j]]
+        nodes = [0]
+        plan = []
+
+        def rec():
+            if not remaining:
+                return True
+            p = self._first_empty_point(size, los, his)
+            if p is None:
+                return False
+            tried = set()
+            # free extent of the ray from p along each axis (up to the next placed box / the wall)
+            ext = size - p
+            if los:
+                lo_a, hi_a = np.asarray(los), np.asarray(his)
+                for ax in range(3):
+                    o = [k for k in range(3) if k != ax]
+                    hit = ((lo_a[:, o] <= p[o]) & (p[o] < hi_a[:, o])).all(-1) & (lo_a[:, ax] >= p[ax])
+                    if hit.any():
+                        ext[ax] = min(ext[ax], int(lo_a[hit, ax].min()) - int(p[ax]))
+            rem_dims = items[remaining]
+            for j in list(remaining):
+                d = tuple(items[j].tolist())
+                if d in tried:
+                    continue
+                tried.add(d)
+                hi = p + items[j]
+                if (hi > size).any() or (items[j] > ext).any():
+                    continue
+                if los and _overlap(p[None], hi[None], np.asarray(los), np.asarray(his)).any():
+                    continue
+                # the box right behind this one along each ray starts exactly at its far face, so
+                # the leftover of the ray must be 0 or long enough for some other remaining item
+                if len(remaining) > 1:
+                    others = np.delete(rem_dims, remaining.index(j), 0).min(0)
+                    gap = ext - items[j]
+                    if ((gap > 0) & (gap < others)).any():
+                        continue
+                nodes[0] += 1
+                if nodes[0] > self.SOLVE_BUDGET:
+                    return None
+                remaining.remove(j)
+                los.append(p)
+                his.append(hi)
+                plan.append((j, p))
+                res = rec()
+                if res:
+                    return True
+                plan.pop()
+                los.pop()
+                his.pop()
+                remaining.append(j)
+                remaining.sort()
+                if res is None:
+                    return None
+            return False
+
+        return list(plan) if rec() else None
+
+    def solve_action(self, s, r=0):
+        """Next step of an exact tiling of the container by the remaining items (depth-first search
+        placing an item at the lowest-leftmost empty point), expressed as (observed EMS, item): the
+        EMS must be shown, have its corner at that point and hold the item.  None otherwise."""
+        if not hasattr(self, "_plans"):
+            self._plans = {}
+        placed = np.asarray(s.items_placed).astype(bool)
+        loc = _locs(s.items_location)
+        key = (_items(s.items).tobytes(), placed.tobytes(), (loc * placed[:, None]).tobytes())
+        if key not in self._plans:
+            if len(self._plans) > 4096:
+                self._plans.clear()
+                self._fails = {}
+            # a search that fails is expensive: give up on an instance after two failures
+            fails = self.__dict__.setdefault("_fails", {})
+            plan = self._tile_plan(s) if fails.get(key[0], 0) < 2 else None
+            if plan is None:
+                fails[key[0]] = fails.get(key[0], 0) + 1
+            self._plans[key] = plan
+            if plan:
+                pl, lc = placed.copy(), (loc * placed[:, None]).copy()
+                for n, (j, p) in enumerate(plan[:-1]):
+                    pl, lc = pl.copy(), lc.copy()
+                    pl[j] = True
+                    lc[j] = p
+                    self._plans.setdefault((key[0], pl.tobytes(), lc.tobytes()), plan[n + 1:])
+        plan = self._plans[key]
+        if not plan:
+            return None
+        j, p = plan[0]
+        idx = self._order(s)
+        ems = _ems(s.ems)[idx]
+        ok = self._fits(s, idx)[:, j] & (ems[:, [0, 2, 4]] == np.asarray(p)[None]).all(-1)
+        o = np.flatnonzero(ok)
+        if o.size == 0:
+            return None
+        return np.asarray([int(o[int(r) % o.size]), int(j)], np.int32)
 
     # ---------------------------------------------------------------------------------------- C10
     def _solution_pair(self):
